@@ -52,8 +52,8 @@ func PushRepo(uuid dvid.UUID, target string, config dvid.Config) error {
 
 	// Create a repo that is tailored by the push configuration, e.g.,
 	// keeping just given data instances, etc.
-	v, found := manager.uuidToVersion[uuid]
-	if !found {
+	v, err := manager.versionFromUUID(uuid)
+	if err != nil {
 		return ErrInvalidUUID
 	}
 	txRepo, transmit, err := thisRepo.customize(v, config)
@@ -540,8 +540,7 @@ func (p *pusher) readRepo(m *repoTxMsg) (map[dvid.VersionID]struct{}, error) {
 		// Also have to make sure any data instances are rerooted if the root
 		// no longer exists.
 		for name, d := range p.repo.data {
-			_, found := manager.uuidToVersion[d.RootUUID()]
-			if !found {
+			if _, err := manager.versionFromUUID(d.RootUUID()); err != nil {
 				p.repo.data[name].SetRootUUID(m.UUID)
 			}
 		}
@@ -571,8 +570,8 @@ func getDeltaAll(remote *repoT, uuid dvid.UUID) (map[dvid.VersionID]struct{}, er
 	// then convert to VersionID.
 	delta := make(map[dvid.VersionID]struct{})
 	for _, rnode := range remote.dag.nodes {
-		lv, found := manager.uuidToVersion[rnode.uuid]
-		if found {
+		lv, err := manager.versionFromUUID(rnode.uuid)
+		if err == nil {
 			dvid.Debugf("Both remote and local have uuid %s... skipping\n", rnode.uuid)
 		} else {
 			dvid.Debugf("Found version %s in remote not in local: sending local version id %d\n", rnode.uuid, lv)
